@@ -58,6 +58,39 @@ func addedWeight(method string, a AddedCrit) (float64, bool) {
 	return val, ok
 }
 
+// expectedImportanceRef: the criterion the importanceRatio strategy (the default) picks from a ranking in
+// ascending importance: the first whose cumulated importance reaches newCriterionImportance x total, else the last.
+// ambiguous when a cumulated sum is within 1e-9 (relative) of the target without being equal.
+func expectedImportanceRef(s *Snap, params M) (id string, applicable bool, ambiguous bool) {
+	typ := str(params["referenceCriterionType"])
+	if typ != "" && typ != "importanceRatio" {
+		return "", false, false
+	}
+	if s.ImpErr != "" || len(s.ImpOrder) == 0 {
+		return "", false, false
+	}
+	imp := 0.0
+	if x, ok := params["newCriterionImportance"]; ok {
+		imp = num(x)
+	}
+	total := 0.0
+	for _, c := range s.ImpOrder {
+		total += s.Imp[c]
+	}
+	target := imp * total
+	cum := 0.0
+	for _, c := range s.ImpOrder {
+		cum += s.Imp[c]
+		if d := math.Abs(cum - target); d != 0 && d <= 1e-9*math.Max(1, math.Abs(target)) {
+			ambiguous = true
+		}
+		if cum >= target {
+			return c, true, ambiguous
+		}
+	}
+	return s.ImpOrder[len(s.ImpOrder)-1], true, ambiguous
+}
+
 func between(x, a, b float64) bool {
 	lo, hi := math.Min(a, b), math.Max(a, b)
 	s := 1e-9 * math.Max(1, math.Max(math.Abs(lo), math.Abs(hi)))
@@ -172,6 +205,34 @@ func judgeC18(c ReqCase) *Fail {
 		}
 	}
 	props := x.props
+	// the reference criterion is chosen by the configured strategy: for importanceRatio (the default) it is determined
+	// by the ranking (concealment ranks the original state, mixing the state it receives)
+	rankState := x.before
+	if x.name == "criteriaConcealment" {
+		rankState = x.first
+	}
+	if want, ok, amb := expectedImportanceRef(rankState, props); ok && !amb {
+		// ties in importance make the ranking order itself the listener's choice: compare importances, not ids
+		st.inc("C18:importance-ratio-reference-checked")
+		if weighted {
+			match := false
+			for _, id := range refs {
+				if rankState.Imp[id] == rankState.Imp[want] {
+					match = true
+				}
+			}
+			if !match {
+				return failf("reference-chosen-by-strategy", "importanceRatio (newCriterionImportance=%v) picks %s from the ranking %v %v, but the new weight is not a fraction of a criterion of that importance (candidates %v)", props["newCriterionImportance"], want, rankState.ImpOrder, rankState.Imp, refs)
+			}
+			var keep []string
+			for _, id := range refs {
+				if rankState.Imp[id] == rankState.Imp[want] {
+					keep = append(keep, id)
+				}
+			}
+			refs = keep
+		}
+	}
 	switch x.name {
 	case "criteriaConcealment":
 		scaling := 1.0
